@@ -208,6 +208,9 @@ def ty_range(body, tix):
 FIELD_INV = {}
 
 
+_RET_IV = {}
+
+
 class Intervals:
     def __init__(self, prog, body, param_iv=None):
         self.prog = prog
@@ -379,6 +382,23 @@ class Intervals:
             return None
         if name in ("count_ones", "leading_zeros", "trailing_zeros"):
             return (0, 128)
+        # a small loop-free helper of the workspace: the interval of what it returns (computed in the helper itself, with
+        # the field invariants of the headers it reads), so that arithmetic moved into a helper keeps its bound
+        cb = self.prog.bodies.get(ck)
+        if cb is not None and depth < 3 and len(cb.blocks) <= 12 and cb.key.startswith(("elvis_core::", "elvis::")):
+            key = ("ret", ck)
+            if key not in _RET_IV:
+                _RET_IV[key] = None
+                try:
+                    g_ = cfg(cb)
+                    if not any(g_.in_loop(bb) for bb in range(len(cb.blocks)) if not cb.is_cleanup(bb)):
+                        sub = Intervals(self.prog, cb, self.param_iv)
+                        r = sub.of_place([0, []], depth + 1)
+                        if r is not None:
+                            _RET_IV[key] = r
+                except Exception:
+                    _RET_IV[key] = None
+            return _RET_IV[key]
         if name in ("div_ceil", "div_euclid", "checked_div") and len(args) == 2 and ck.startswith("core::num::"):
             a, b = self.of_operand(args[0], depth), self.of_operand(args[1], depth)
             if a and b and a[0] >= 0 and b[0] >= 1 and name != "checked_div":
